@@ -831,6 +831,7 @@ class IntLower:
         self.splits = {}
         self.vars = {}
         self.exact = True  # becomes False when an opaque product is introduced
+        self.opaque_consts = set()  # constants whose products with a variable are kept opaque (bilinear form only)
         self.ordered_products = True  # P(x,y) and P(y,x) distinct opaque variables (sound over-approximation; probed faster)
         self.bounds = {}  # z3 id -> (lb, ub) python ints for generated Int exprs
 
@@ -927,6 +928,19 @@ class IntLower:
             x, y = A
             if x.op == 'const' or y.op == 'const':
                 k, v = (x, y) if x.op == 'const' else (y, x)
+                if k.val in self.opaque_consts:
+                    bv_ = v
+                    while bv_.op == 'zext':
+                        bv_ = bv_.args[0]
+                    key = (bv_.id, ('c', k.val))
+                    p = self.prods.get(key)
+                    if p is None:
+                        pv = self.fresh('cprod')
+                        self.side += [pv >= 0, pv <= bv_.ub * k.val]
+                        p = (pv, bv_, k)
+                        self.prods[key] = p
+                        self.exact = False
+                    return self._wrap(t, p[0], 0, bv_.ub * k.val)
                 e = c[v.id] * k.val
                 return self._wrap(t, e, 0, v.ub * k.val)
             # strip zext
@@ -1027,6 +1041,12 @@ class IntLower:
                 self.side += [c[A[0].id] == q * k + r, r >= 0, r < k, q >= 0, q <= A[0].ub // k]
                 return q
         raise IntBlastUnsupported("op %s" % op)
+
+    def product_const(self, x, cval):
+        while x.op == 'zext':
+            x = x.args[0]
+        p = self.prods.get((x.id, ('c', cval)))
+        return p[0] if p else None
 
     def product(self, x, y):
         """the opaque product variable for terms x,y (after zext stripping); None if never multiplied"""
